@@ -1047,6 +1047,7 @@ enum asn_strtox_result_e
 asn_strtoimax_lim(const char *str, const char **end, intmax_t *intp) {
     int sign = 1;
     intmax_t value;
+    const char *digits_start;
 
     const intmax_t asn1_intmax_max = ((~(uintmax_t)0) >> 1);
     const intmax_t upper_boundary = asn1_intmax_max / 10;
@@ -1067,6 +1068,7 @@ asn_strtoimax_lim(const char *str, const char **end, intmax_t *intp) {
         }
     }
 
+    digits_start = str;
     for(value = 0; str < (*end); str++) {
         if(*str >= 0x30 && *str <= 0x39) {
             int d = *str - '0';
@@ -1102,6 +1104,10 @@ asn_strtoimax_lim(const char *str, const char **end, intmax_t *intp) {
             }
         } else {
             *end = str;
+            if(str == digits_start) {
+                /* Not a single digit, e.g. "+-" or " " */
+                return ASN_STRTOX_ERROR_INVAL;
+            }
             *intp = sign * value;
             return ASN_STRTOX_EXTRA_DATA;
         }
@@ -1121,6 +1127,7 @@ asn_strtoimax_lim(const char *str, const char **end, intmax_t *intp) {
 enum asn_strtox_result_e
 asn_strtoumax_lim(const char *str, const char **end, uintmax_t *uintp) {
     uintmax_t value;
+    const char *digits_start;
 
     const uintmax_t asn1_uintmax_max = ((~(uintmax_t)0));
     const uintmax_t upper_boundary = asn1_uintmax_max / 10;
@@ -1139,6 +1146,7 @@ asn_strtoumax_lim(const char *str, const char **end, uintmax_t *uintp) {
         }
     }
 
+    digits_start = str;
     for(value = 0; str < (*end); str++) {
         if(*str >= 0x30 && *str <= 0x39) {
             unsigned int d = *str - '0';
@@ -1169,6 +1177,10 @@ asn_strtoumax_lim(const char *str, const char **end, uintmax_t *uintp) {
             }
         } else {
             *end = str;
+            if(str == digits_start) {
+                /* Not a single digit, e.g. "+-" or " " */
+                return ASN_STRTOX_ERROR_INVAL;
+            }
             *uintp = value;
             return ASN_STRTOX_EXTRA_DATA;
         }
